@@ -2,7 +2,7 @@
 TCB = "Trusted: the harness' VT emulator and gated reader (validated by ./check SELF), the Linux pty line discipline, the Go runtime. Says nothing about inputs/schedules not driven; bounds are in DESIGN.md section 5."
 
 check("C01", "exploration",
-      "Crash / read-storm / deadlock / CPU-and-memory runaway detectors over thousands of PRNG-determined Readline sessions (every bound sequence of every keymap, hostile bytes, EOF/EIO injected at random prefixes). Held = none of the refuting events on the executions produced.",
+      "Crash / read-storm / deadlock / CPU-and-memory runaway detectors over thousands of PRNG-determined Readline sessions (every bound sequence of every keymap, hostile bytes, EOF/EIO injected at random prefixes; every second session is directed: operator x object x argument key, surround commands and every binding with its argument, on 27 shaped buffers at every cursor position). Held = none of the refuting events on the executions produced.",
       TCB, "runtime monitoring: crash/deadlock/spin detectors on real sessions with fault injection", "DESIGN.md 5 C01")
 
 check("C02", "exploration",
@@ -34,19 +34,19 @@ check("C13", "exploration",
       "Reference semantics are the statement's (a directive is live iff every enclosing arm is live); key notation decoded from the generator's own choice of notation.", "runtime monitoring: reference evaluator (executable model) vs parsed configuration", "DESIGN.md 5 C13")
 
 check("C19", "exploration",
-      "Round-trip law Unescape(Escape(s)) == s / Unescape(EscapeMacro(s)) == s: exhaustive over every rune 0x00-0xFF and every pair, every default binding and macro, random sequences incl. Unicode; plus sessions running dump-functions/-variables/-macros with a numeric argument on generated configurations, whose captured terminal output is parsed back and compared with the live configuration.",
+      "Round-trip law Unescape(Escape(s)) == s / Unescape(EscapeMacro(s)) == s: exhaustive over every rune 0x00-0xFF and every pair, every default binding and macro, random sequences incl. Unicode; for each of them also the bind / macro line the dump commands would print (notation between double quotes) parsed back with the inputrc parser; plus sessions running dump-functions/-variables/-macros with a numeric argument on generated configurations, whose captured terminal output is parsed back and compared with the live configuration.",
       TCB, "runtime monitoring: inverse-law oracle (exhaustive for length <= 2) + dump/re-parse sessions", "DESIGN.md 5 C19")
 
 check("C06", "exploration",
-      "Online invariants at every input wait (cursor within the buffer, on a character in Vi command mode, selection within the buffer), acceptance equality (returned line == buffer observed before a plain accept), and before/after text equality for 58 (command, keymap) pairs documented as pure movements/copies invoked by name with numeric arguments from history-recalled buffers.",
+      "Online invariants at every input wait (cursor within the buffer, on a character in Vi command mode, selection within the buffer), acceptance equality (returned line == buffer observed before a plain accept), and before/after text equality for 58 (command, keymap) pairs documented as pure movements/copies invoked by name with numeric arguments from history-recalled buffers, and for sequences of 2-4 copies into named registers (replace / append) on multi-line buffers.",
       TCB, "runtime monitoring: state invariants at hooked wait points + before/after equality", "DESIGN.md 5 C06")
 
 check("C07", "exploration",
-      "Monitors over the per-step buffer snapshots of one call: every buffer produced by undo was shown before; a tail of undos reaches the initial content; n effective undos + n redos restore the text; redo after a new edit changes nothing. Exhaustive over all operation sequences of length <= 4 (quick) / <= 5 (thorough) on an 11-operation Emacs alphabet plus random sequences up to 40 operations in Emacs and Vi (with history walks).",
-      TCB, "runtime monitoring: trace checkers (membership, inverse laws) over snapshot sequences", "DESIGN.md 5 C07")
+      "Monitors over the per-step buffer snapshots of one call: every buffer produced by undo was shown before; a tail of undos reaches the initial content; n effective undos + n redos restore the text; redo after a new edit changes nothing; a timeline order model (non-deterministic over repeated texts) demands that undo lands below and redo above the current state and that a new edit cuts the undone branch. Exhaustive over all operation sequences of length <= 4 (quick) / <= 5 (thorough) on an 11-operation Emacs alphabet plus random sequences up to 40 operations in Emacs and Vi (with history walks).",
+      TCB, "runtime monitoring: trace checkers (membership, timeline order model, inverse laws) over snapshot sequences", "DESIGN.md 5 C07")
 
 check("C08", "exploration",
-      "Per-source before/after diff of 1-3 bound history sources (in-memory, file-backed, a Write-counting harness source) across 1-4 consecutive Readline calls with 7 accept variants, 5 history-size settings and blank/duplicate/padded/Unicode/multi-line lines: exactly one append of the trimmed line for ordinary accepts unless blank or duplicate of that source's newest entry, unchanged otherwise, limit honoured only from N entries on.",
+      "Per-source before/after diff of 1-3 bound history sources (in-memory, file-backed, a Write-counting harness source) across 1-4 consecutive Readline calls with 7 accept variants, 5 history-size settings and blank/duplicate/padded/Unicode/multi-line lines: exactly one append of the trimmed line for ordinary accepts unless blank or duplicate of that source's newest entry, unchanged otherwise, limit honoured only from N entries on; a file-backed source is reloaded from disk after every call and must equal the open source, one in four starts with a torn last record.",
       TCB, "runtime monitoring: conservation check (before/after diff, Write-call count) on bound history sources", "DESIGN.md 5 C08")
 
 check("C09", "exploration",
@@ -58,7 +58,7 @@ check("C11", "exploration",
       TCB, "runtime monitoring: terminal-state monitors (termios, cursor cell, cursor style) after every exit path", "DESIGN.md 5 C11")
 
 check("C14", "exploration",
-      "Framing oracle at every wait after a completion key: buffer == L0[:word start] + offered value + L0[cursor:] (or unchanged), over buffers with multi-byte text, quotes and escaped blanks, cursors at the end / inside / before words, 1-8 candidates (plain, described, tagged, NoSpace, case variants), ignore-case on/off and Tab / Shift-Tab / arrow sequences; C-c in an active menu must restore (L0, cursor) and not end the call.",
+      "Framing oracle at every wait after a menu key, anchored at the last wait without an active menu: buffer == L0[:word start] + offered value + L0[cursor:] (or unchanged), over buffers with multi-byte text, quotes and escaped blanks, cursors at the end / inside / before words, 1-8 candidates (plain, described, tagged, NoSpace, case variants, the word itself), ignore-case on/off and Tab / Shift-Tab / arrows / C-n / C-p / C-f (incremental search of candidates) / C-@ sequences, one case in three with a second completion round on the same Shell; accepting by typing keeps the candidate whole (minus a declared removable suffix); C-c in an active menu must restore (L0, cursor) and not end the call.",
       TCB, "runtime monitoring: framing equality against the pre-completion snapshot and the completer's own candidate list", "DESIGN.md 5 C14")
 
 check("C15", "exploration",
@@ -66,7 +66,7 @@ check("C15", "exploration",
       TCB, "runtime monitoring: trace checker (period-N permutation windows) over the inserted-word sequence", "DESIGN.md 5 C15")
 
 check("C16", "exploration",
-      "Inverse-law oracle kill o yank: for 10 Emacs kill commands bound by name (and Vi x/P) from every cursor position of 15 history-recalled buffers with numeric arguments and multi-kill sequences, the kill buffer must be exactly the removed text (L1[:i] + R + L1[i:] == L) and an immediate yank at that point must restore the buffer; after several kills yank gives the most recent.",
+      "Inverse-law oracle kill o yank: for 10 Emacs kill commands bound by name (and Vi x/P) from every cursor position of 15 history-recalled buffers with numeric arguments, multi-kill sequences (up to 15 kills in one call: more than the kill ring holds), Vi counts around the end of the cursor's line on multi-line buffers, regions with the point on either side of the mark, the kill buffer must be exactly the removed text (L1[:i] + R + L1[i:] == L) and an immediate yank at that point must restore the buffer; after several kills yank gives the most recent.",
       TCB, "runtime monitoring: inverse-law oracle on before/after snapshots and the public kill-buffer getter", "DESIGN.md 5 C16")
 
 check("C17", "exploration",
@@ -74,11 +74,11 @@ check("C17", "exploration",
       TCB, "runtime monitoring: differential oracle (delete vs yank) over paired sessions", "DESIGN.md 5 C17")
 
 check("C18", "exploration",
-      "Differential oracle on pairs of sessions: the key script K typed twice vs K recorded and replayed (Emacs C-x ( ... C-x ) C-x e; Vi q<r> ... q @<r> over 10 registers), K = 1-12 tokens of text with quotes/backslashes/escape look-alikes, control keys, ESC-prefixed keys, CSI keys, quoted-insert, digit arguments, Vi commands with counts and argument keys; final buffer texts must be equal.",
+      "Differential oracle on pairs of sessions: the key script K typed twice vs K recorded and replayed (Emacs C-x ( ... C-x ) C-x e; Vi q<r> ... q @<r> over 10 registers), K = 1-12 tokens of text with quotes/backslashes/escape look-alikes, control keys, ESC-prefixed keys, CSI keys, quoted-insert, digit arguments, Vi commands with counts and argument keys, operators with text objects and surround characters, named registers; one case in five after an empty recording on the same Shell; final buffer texts must be equal.",
       TCB + " In Vi scripts a key that would combine with a directly preceding ESC into a bound sequence is excluded (replay carries no timing; same exclusion as C05).", "runtime monitoring: differential oracle (retype vs record+replay) over paired sessions", "DESIGN.md 5 C18")
 
 check("C20", "exploration",
-      "Race-detector build. Each script runs undisturbed and then with SIGWINCH (real size changes, bursts of 2-20) and Shell.Printf from a second goroutine fired at logical trigger points: while the main loop is parked at a wait (settled or with the next keys delivered at once) and inside a redisplay (the emulator holds the main loop's cursor answer until the disturber has queried too, then answers in either order or in one write). Oracles: no crash, no deadlock / stuck keystroke (logical criteria on goroutine dumps, gate counters and the tty queue), same (line, err) as the undisturbed run, consistent screen after the next redisplay, and no data race report with a library frame outside the calibrated known set.",
+      "Race-detector build. Each script runs undisturbed and then with SIGWINCH (real size changes, bursts of 2-20) and Shell.Printf from a second goroutine fired at logical trigger points: at an input wait of the main loop or of a command reading its argument key, and inside a redisplay (the emulator holds the main loop's cursor answer until the disturber has queried too, then answers in either order or in one write). Half of the cases have a clean schedule (single disturbances, each fired while the main loop is really parked in its terminal read and run to its end before the next keys); findings are keyed by schedule class and known findings exist for overlapping schedules only. Oracles: no crash, no deadlock / stuck keystroke / resize or Printf goroutine blocked for good in its cursor query (logical criteria on goroutine dumps, gate counters and the tty queue), same (line, err) as the undisturbed run, consistent screen after the next redisplay, and no data race report with a library frame outside the calibrated known set.",
       TCB + " Which interleavings are realised is reported (evidence: trigger_points_realised, race_entry_pairs, race_functions_seen); a clean run says nothing about interleavings not realised.", "runtime monitoring: Go race detector + deadlock/stuck-keystroke detectors + differential vs undisturbed run under controlled disturbance schedules", "DESIGN.md 5 C20")
 
 for _p in ["C03","C04","C05","C06","C07","C08","C09","C10","C11","C12","C13","C14","C15","C16","C17","C18","C19","C20"]:
